@@ -31,6 +31,10 @@ def run(chk):
                         'SPIF_STR_* method macros of str.h, which dispatch on the object\'s own strclass table (ustr.h method macros and the '
                         'NEW_FROM_* macros of both headers do not compile; those slots are called through the strclass variable)',
                         'read() is wrapped for libast\'s own calls: short reads, EINTR and a stale errno are injected into new_from_fd/init_from_fd']
+    chk.cov['single_step_table'] = ('enumerated completely in both tiers: {never-filled, "", "a", "aB", " aB1\\t", "   "} x {6 append/prepend forms, '
+                                    'splice, splice_from_ptr, trim, reverse, upcase, downcase, clear, sprintf, done, dup, substr/substr_to_ptr} x 2 routes; '
+                                    'splice and substr over the full 21 x 21 grid of boundary indices and counts (around the length, both signs, '
+                                    '+-2^31, +-2^32+1, INT64_MIN/MAX)')
     chk.min_cases = 2 * 16 * per * 9 // 10
     chk.require('table_cases', 2 * NTABLE)
     chk.require('histories', 2 * 16 * (per - NTABLE // 16 - 1) * 8 // 10)
